@@ -26,6 +26,7 @@ GENERATORS = [
     ("GenMain.v", "tr_main"),
     ("GenClassify.v", "tr_classify"),
     ("GenFilter.v", "tr_filter"),
+    ("GenFilterMatch.v", "tr_filtermatch"),
     ("GenMessages.v", "tr_messages"),
 ]
 
